@@ -482,7 +482,30 @@ class Repo:
             return False
         if fi.kind not in ('function', 'method', 'staticmethod', 'classmethod'):
             return False
+        if fi.key in self._moved_anchors():
+            return False
         return fi.name.startswith('_') or fi.key not in FUNCTIONS
+
+    def _moved_anchors(self):
+        """module-level functions of the frozen inventory that now live in another module and are imported back under their
+        name (``from .negotiation import build_pres_context_def_list``): still the anchors they were, not helpers"""
+        cache = getattr(self, '_moved_anchor_cache', None)
+        if cache is None:
+            from .oracles.inventory import FUNCTIONS
+            cache = set()
+            for key in FUNCTIONS:
+                mod, _, qn = key.partition(':')
+                m = self.modules.get(mod)
+                if m is None or '.' in qn or qn in m.functions or qn not in m.imports:
+                    continue
+                try:
+                    r = self.resolve_name(qn, m)
+                except Exception:
+                    continue
+                if isinstance(r, FuncRef) and r.module != mod:
+                    cache.add('%s:%s' % (r.module, r.qualname))
+            self._moved_anchor_cache = cache
+        return cache
 
     def unique_helper_method(self, name: str) -> Optional[FuncInfo]:
         """the one method of that name in the package, if it is a helper (private or absent from the frozen inventory), no
